@@ -1,7 +1,11 @@
 ------------------------------- MODULE DatMC -------------------------------
-(* MC form of Dat: small constants, the wire bounded to MaxNet responses (the intruder's splices are unbounded *)
-(* in kind, bounded in number).                                                                               *)
+(* MC form of Dat: small constants; the honest host answers at most MaxNet times (what the intruder does with *)
+(* the answers is not bounded: every splice of every seen response and every forgery can be delivered).       *)
 EXTENDS Dat
 CONSTANT MaxNet
-Bound == Cardinality(net) <= MaxNet
+MCHostRespond == Cardinality(net) < MaxNet /\ DoHostRespond
+MCNext == DoChallenge \/ MCHostRespond \/ DeliverSeen \/ DeliverSpliced \/ DeliverForged
+\* non-vacuity: both outcomes of a delivery are reachable (checked by the harness as "these invariants are VIOLATED")
+NeverAccepts == accepted = {}
+NeverRejects == nrej = 0
 =============================================================================
